@@ -86,8 +86,10 @@ FAMILIES = {
                                                    "thorough": dict(depth=1, consts={"ParseSet": '"full"', "NRandom": "50"})}),
               ("Gen_Req", "Gen_Req.cfg", "bfs", {"quick": dict(depth=1, consts={"ReqSet": '"small"'}), "thorough": dict(depth=1, consts={"ReqSet": '"full"'})}),
               ("Gen_Genesis", "Gen_Genesis.cfg", "bfs", {"quick": dict(depth=1, consts={}), "thorough": dict(depth=1, consts={})}),
-              ("Gen_Pass", "Gen_Pass.cfg", "bfs", {"quick": dict(depth=1, consts={}), "thorough": dict(depth=1, consts={})})],
-        replays=[dict(mode="app", controls="", swap=False, extra=["-digests"], repeat={"quick": 2, "thorough": 4})]),
+              ("Gen_Pass", "Gen_Pass.cfg", "bfs", {"quick": dict(depth=1, consts={}), "thorough": dict(depth=1, consts={})}),
+              ("Gen_Discard", "Gen_Discard.cfg", "bfs", {"quick": dict(depth=3, consts={}), "thorough": dict(depth=3, consts={})}),
+              ("Gen_Discard", "Gen_Discard.cfg", "sim", {"quick": dict(num=100, depth=8, consts={}, seeds=1), "thorough": dict(num=1000, depth=12, consts={}, seeds=2)})],
+        replays=[dict(mode="app", controls="", swap=False, extra=["-digests"], repeat={"quick": 3, "thorough": 5})]),
     "FEESBIG": dict(
         mc=("MC_FeesBig", "MC_FeesBig.cfg", {"quick": {"Ks": "{31, 32, 63, 64, 65, 128, 255, 256}"}, "thorough": {"Ks": "0..256"}}),
         shards={"quick": [{}], "thorough": [{"Ks": "%d..%d" % (a, min(a + 31, 256))} for a in range(0, 257, 32)]},
@@ -152,7 +154,7 @@ PROPS = {
                 rule="FAULT: every (payload shape x armed fault set x clean/dusty state) is one execution with fault wrappers around the real dependencies; FUNDS: naturally occurring failures; non-trivial = a reception in which an armed fault actually fired or the transfer was refused; distinct = distinct (pre-state, input incl. fault set)"),
     "C06": dict(families=["ORDER"], groups=["ack", "actions", "req", "xfers", "events"], level="model_checking",
                 rule="non-trivial = a packet whose payload carries actions (executed with recording decorators around the fee controller and the swap test controller) or repeats an action id; distinct = distinct (pre-state, input)"),
-    "C14": dict(families=["PARSE", "FUNDS", "BIGSEQ"], groups=["ack"], level="exploration",
+    "C14": dict(families=["PARSE", "FUNDS", "BIGSEQ", "PAUSE"], groups=["ack"], level="exploration",
                 rule="TLC enumerates the finite grid templates x JSON paths x mutations completely; unstructured classes (random bytes as packet data, random memo bytes, random JSON under the real field names, extreme amounts/denoms/attribute values) are seeded-random representatives; each is one packet through the full app under recover(); non-trivial = every such packet; distinct = distinct abstract input"),
     "C20": dict(families=["IDENT"], groups=["ident"], level="model_checking", exhaustive=True,
                 rule="one evaluation = one (protocol, counterparty string) pair sent through every identifier entry point; the evidence counts steps (batches of all strings per protocol and pre-state); non-trivial = every batch; distinct = distinct (pre-state, protocol)"),
@@ -274,22 +276,44 @@ def run_family(fam, tier, seed, wd, specdir, report):
 
 def attach_peers(trace, tagged, wd, tag, R, nrep):
     """C19: replay the same histories in further independent OS processes; their per-step digests are
-    attached to the first trace as "peers" (data plumbing only; TLC compares them)."""
-    peers = []
-    for k in range(1, nrep):
-        t2, dt2 = replay(tagged, wd, "%s-rep%d" % (tag, k), mode=R["mode"], controls=R["controls"], extra=R.get("extra"),
+    attached to the first trace as "peers" (data plumbing only; TLC compares them). Odd-numbered peers
+    have a DIFFERENT PROCESS HISTORY over the same committed histories: they replay the histories in
+    reverse order and never execute the discarded steps (which by the specification - DiscardInert -
+    leave no state): a node that did not serve a simulation must agree with one that did."""
+    from concurrent.futures import ThreadPoolExecutor
+
+    def one(k):
+        extra = list(R.get("extra") or [])
+        if k % 2 == 1:
+            extra += ["-skipdisc", "-reverse"]
+        t2, dt2 = replay(tagged, wd, "%s-rep%d" % (tag, k), mode=R["mode"], controls=R["controls"], extra=extra,
                          env={"GOMAXPROCS": str(1 + 3 * k), "GOGC": str(50 * k)})
-        peers.append([json.loads(l) for l in open(t2)])
+        pl = {(l["b"], l["i"]): l for l in (json.loads(x) for x in open(t2))}
         os.remove(t2)
-        log("replayed again in an independent process (#%d) in %.0fs" % (k + 1, dt2))
+        log("replayed again in an independent process (#%d%s) in %.0fs" % (k + 1, ", reversed order, discarded steps not executed" if k % 2 == 1 else "", dt2))
+        return pl
+    with ThreadPoolExecutor(max_workers=4) as ex:
+        peers = list(ex.map(one, range(1, nrep)))
     lines = [json.loads(l) for l in open(trace)]
     for pl in peers:
         if len(pl) != len(lines):
             raise Machinery("replays have different lengths")
     with open(trace, "w") as f:
-        for i, ln in enumerate(lines):
-            ln["obs"]["x"]["peers"] = [pl[i]["obs"]["x"]["dig"] if (pl[i]["b"], pl[i]["i"]) == (ln["b"], ln["i"]) else "MISALIGNED" for pl in peers]
-            ln["obs"]["x"]["peerText"] = [pl[i]["res"]["text"][:400] for pl in peers if pl[i]["obs"]["x"]["dig"] != ln["obs"]["x"]["dig"]]
+        for ln in lines:
+            key = (ln["b"], ln["i"])
+            ps, texts = [], []
+            for pl in peers:
+                if key not in pl:
+                    ps.append("MISALIGNED")
+                    continue
+                p = pl[key]
+                if p["res"]["ack"] == "skipped":
+                    continue        # this peer never ran the discarded step: nothing to compare
+                ps.append(p["obs"]["x"]["dig"])
+                if p["obs"]["x"]["dig"] != ln["obs"]["x"]["dig"]:
+                    texts.append(p["res"]["text"][:400])
+            ln["obs"]["x"]["peers"] = ps
+            ln["obs"]["x"]["peerText"] = texts
             f.write(json.dumps(ln) + "\n")
 
 
@@ -373,6 +397,11 @@ def attribute(prop, recs, evs, behs_by_id, wd, specdir, report, tier="quick"):
             rp["context"] = [behs_by_id[x][0] for x in order[max(0, idx - 4000):idx] if behs_by_id[x][1] is R]
             json.dump(rp, open(path, "w"))
             ok = do_replay(path, quiet=True)
+        if ok is not True and rp["repeat"] > 1:
+            # peers with a different process history (reversed order) ran the FOLLOWING behaviours first
+            rp["context_after"] = [behs_by_id[x][0] for x in order[idx + 1:idx + 4001] if behs_by_id[x][1] is R]
+            json.dump(rp, open(path, "w"))
+            ok = do_replay(path, quiet=True)
         if ok is True:
             violations.append((path, r, ev))
         else:
@@ -387,15 +416,17 @@ def do_replay(path, quiet=False):
     os.makedirs(wd, exist_ok=True)
     try:
         specdir = prep_spec(wd)
-        trace, _ = replay(rp.get("context", []) + [rp["behaviour"]], wd, "replay", mode=rp["mode"], controls=rp["controls"], extra=rp.get("extra"))
+        allb = rp.get("context", []) + [rp["behaviour"]] + rp.get("context_after", [])
+        trace, _ = replay(allb, wd, "replay", mode=rp["mode"], controls=rp["controls"], extra=rp.get("extra"))
         if rp.get("repeat", 1) > 1:
             # a non-determinism may need several attempts to show again
-            attach_peers(trace, rp.get("context", []) + [rp["behaviour"]], wd, "replay", rp, max(4, rp["repeat"]))
+            attach_peers(trace, allb, wd, "replay", rp, max(4, rp["repeat"]))
         recs, evs, _ = validate(specdir, trace, rp.get("swap", False), parallel=1)
-        last = recs[-1]
+        tgt = [k for k, r in enumerate(recs) if r["b"] == "replay"]
+        last = recs[tgt[-1]]
         hit = bool(set(PROPS.get(rp["property"], {}).get("props", [rp["property"]])) & set(last["viol"]))
         if not quiet:
-            ev = evs[-1]
+            ev = evs[tgt[-1]]
             log("replay of %s: step %d: %s" % (path, last["i"], in_summary(ev["in"])))
             log("  concrete: %s" % json.dumps(ev.get("concrete"))[:1500])
             log("  result:   %s" % json.dumps(ev["res"])[:1500])
